@@ -13,7 +13,7 @@ from mc.space import seqs, compositions, chunked, deviation_bounded
 from pykdebugparser.kd_buf_parser import KdBufParser
 from pykdebugparser.os_log_event import OsLogEvent
 
-RECS = [B.rec(i + 1, (i, 2, 3, 4), 9, 0x040c000d) for i in range(3)] + [b'\xff' * 64, bytes(64)]
+RECS = [B.rec(1, (0, 2, 3, 4), 9, 0x040c000d), bytes(64), B.rec(3, (2, 2, 3, 4), 9, 0x040c000d), b'\xff' * 64, bytes(64)]      # an all-zero record is a record (timestamp 0, thread 0, code 0)
 TAGGED = [B.TAG_MORE_EVENTS + bytes(range(8, 64)), B.TAG_EVENTS + bytes(range(8, 64)), B.TAG_TRACE_CODES + bytes(range(8, 64)),
           B.V3_MAGIC + bytes(range(4, 64))]    # records whose first bytes look like container tags
 SS, TM, ET, ME = B.STACKSHOT_END, B.TAG_THREADMAP, B.TAG_EVENTS, B.TAG_MORE_EVENTS
@@ -32,6 +32,9 @@ def log_event(i, with_proc, with_tid):
     if with_proc:
         e['p'] = 0
         e['pid'] = 40 + i
+        if i == 2 and with_tid:
+            # a (thread, process id) pair the thread map already holds, under ANOTHER name: the record's name is the one the tables end with
+            e['tid'], e['pid'] = 5, 6
     # a trace identifier of the log namespace whose general flags have exactly one of unique-pid (0x10) / large-offset (0x20) set
     e['ti'] = 4 | (((0x10 if i % 3 == 0 else 0x20 if i % 3 == 1 else 0x31)) << 16) | (2 << 24) | ((7 + i) << 32)
     if i % 2 == 0:
